@@ -1,10 +1,15 @@
 // C01, second entry point: class LocalNetwork (gama-local) in front of the four solvers.
 // Builds a real LocalNetwork from a .gkf, adjusts it through the public accessors solve(), residuals(),
-// trans_VWV() and dumps
+// trans_VWV() and the cofactor accessors qxx(i,j), qbb(i,j), weight_obs(i), stdev_obs(i), wcoef_res(i), and dumps
 //   * "P …" lines: the system project_equations() assembled in its FINAL pass (sparse rows Asp, rhs_, every
-//     cluster of OD.clusters with its packed covariance matrix and the active() flags, m_0_apr_, min_x_) —
-//     exactly the definition lines of lean/Driver/NetFacade.lean (without the "P "),
-//   * "R …" lines: the implementation's answers, in the shape of `answerLines` of that driver.
+//     cluster of OD.clusters with its packed covariance matrix and the active() flags, m_0_apr_, min_x_, the
+//     configured kind of actual sigma) — exactly the definition lines of lean/Driver/NetFacade.lean (without "P "),
+//   * "R …" lines: the implementation's answers, in the shape of `answerLines` of that driver:
+//       R x …, R r …, R pvv v, R defect d, R hA <i> …, R hb …,
+//       R qxx <i> v_1 … v_n   (i = 1..n; all pairs qxx(i,j))      or  R qxx <i> throw <Kind>
+//       R qbb <i> v_1 … v_m   (i = 1..m; all pairs qbb(i,j))      or  R qbb <i> throw <Kind>
+//       R wobs v_1 … v_m (weight_obs), R sobs v_1 … v_m (stdev_obs), R wres v_1 … v_m (wcoef_res)
+//                                                                  or  R <tag> throw <Kind>
 // Private state through the friend probe (struct GamaVerifProbe is a friend of LocalNetwork under -DGAMA_VERIF).
 //
 // ops (stdin):
@@ -94,6 +99,22 @@ static void dump_problem()
   std::cout << "P minx " << (mx ? k : 0);
   if (mx) for (int i = 0; i < k; i++) std::cout << " " << mx[i];
   std::cout << "\n";
+  std::cout << "P act " << (N.m_0_apriori() ? "apriori" : "aposteriori") << "\n";
+}
+
+// one line of answers "R <tag> v_1 … v_k" with v_j = f(j); the whole line becomes "R <tag> throw <Kind>" when an
+// accessor throws (the first one in index order decides, as in the driver's `rowLine`)
+template <typename F> static void row_line(const std::string& tag, int k, F f)
+{
+  std::ostringstream os;
+  os << "R " << tag;
+  try {
+    for (int j = 1; j <= k; j++) os << " " << vp::hex(f(j));
+    std::cout << os.str() << "\n";
+  }
+  catch (const GNU_gama::Exception::matvec& e) { std::cout << "R " << tag << " throw " << kind(e.error()) << "\n"; }
+  catch (const GNU_gama::Exception::base& e) { std::cout << "R " << tag << " throw gama " << e.what() << "\n"; }
+  catch (const std::exception& e) { std::cout << "R " << tag << " throw std " << e.what() << "\n"; }
 }
 
 static void dump()
@@ -135,6 +156,16 @@ static void dump()
   std::cout << "R hb";
   for (int i = 1; i <= hb.dim(); i++) std::cout << " " << vp::hex(hb(i));
   std::cout << "\n";
+
+  // cofactor accessors (network.h): plain delegation to the solver / vectors filled by vyrovnani_()
+  const int nn = x.dim(), mm = r.dim();
+  for (int i = 1; i <= nn; i++)
+    row_line("qxx " + std::to_string(i), nn, [&](int j) { return N.qxx(i, j); });
+  for (int i = 1; i <= mm; i++)
+    row_line("qbb " + std::to_string(i), mm, [&](int j) { return N.qbb(i, j); });
+  row_line("wobs", mm, [&](int i) { return N.weight_obs(i); });
+  row_line("sobs", mm, [&](int i) { return N.stdev_obs(i); });
+  row_line("wres", mm, [&](int i) { return N.wcoef_res(i); });
 }
 
 int main()
